@@ -11,4 +11,4 @@ META = {
 
 
 def main(argv):
-    run_pool_check("C05", META, "device", argv, 700, 12000)
+    run_pool_check("C05", META, "device", argv, 700, 30000)
